@@ -77,13 +77,15 @@ def inRb (ax : Ax) (L : Nat) (it : GItem α) : Bool :=
 def suOKb (childStyles : List (GridChildStyle α)) (su : Setup α) : Bool :=
   su.items.all (inRb .inl su.columns.length) && su.items.all (inRb .blk su.rows.length) &&
     su.items.all (fun it => decide (it.node < childStyles.length)) &&
-    absOKb childStyles su.finalColCounts su.finalRowCounts su.columns.length su.rows.length
+    absOKb childStyles su.finalColCounts su.finalRowCounts &&
+    decide (vecLen su.finalColCounts ≤ (su.columns.length : Int)) &&
+    decide (vecLen su.finalRowCounts ≤ (su.rows.length : Int))
 
 theorem suOKb_sound (childStyles : List (GridChildStyle α)) (su : Setup α) (h : suOKb childStyles su = true) :
     SuOK childStyles su := by
   simp only [suOKb, Bool.and_eq_true, List.all_eq_true, decide_eq_true_eq] at h
-  obtain ⟨⟨⟨h1, h2⟩, h3⟩, h4⟩ := h
-  refine ⟨fun it hit => ?_, fun it hit => ?_, h3, h4⟩
+  obtain ⟨⟨⟨⟨⟨h1, h2⟩, h3⟩, h4⟩, h5⟩, h6⟩ := h
+  refine ⟨fun it hit => ?_, fun it hit => ?_, h3, h4, h5, h6⟩
   · have := h1 it hit
     simp only [inRb, Bool.and_eq_true, decide_eq_true_eq] at this
     exact this
